@@ -136,6 +136,26 @@ def observer_programs(level=0, hosts=None, kinds=None, paths=None):
                 yield {'level': level, 'root': _fill(h, {'k': 'q', 'kind': kind, 'p': p})}
 
 
+def if_programs(level=0):
+    """Data-dependent control flow: a call that happens only if a query answers
+    a particular value; the condition flips under external mutations."""
+    sbn = lambda ch, i=1, **kw: dict({'k': 'sb', 'mode': 'ok', 'catch': True, 'args': [i], 'ch': ch}, **kw)
+    bfn = lambda p, ch=(), **kw: dict({'k': 'bf', 'p': p, 'mode': 'ok', 'catch': True, 'ch': list(ch)}, **kw)
+    conds = [({'k': 'q', 'kind': 'exists', 'p': 'i'}, True), ({'k': 'q', 'kind': 'exists', 'p': 'i'}, False),
+             ({'k': 'q', 'kind': 'is_dir', 'p': 'd'}, True), ({'k': 'q', 'kind': 'is_dir', 'p': 'd'}, False),
+             ({'k': 'q', 'kind': 'list_dir', 'p': 'd'}, '!FileNotFoundError'), ({'k': 'q', 'kind': 'list_dir', 'p': 'd'}, ['j']),
+             ({'k': 'q', 'kind': 'read', 'p': 'i'}, 'AAAA'), ({'k': 'q', 'kind': 'is_file', 'p': 'a'}, True)]
+    thens = [[bfn('d/x')], [bfn('d/y', mode='rb')], [sbn([bfn('d/e/z')], 2)], [bfn('a')], [bfn('d')]]
+    hosts = [lambda s: [s], lambda s: [sbn([s])], lambda s: [bfn('a', [s])] , lambda s: [sbn([s]), bfn('d/y')]]
+    for (q, eq) in conds:
+        for th in thens:
+            for hi, h in enumerate(hosts):
+                stmt = {'k': 'if', 'q': dict(q), 'eq': eq, 'then': [dict(t) for t in th]}
+                root = h(stmt)
+                if obligation_ok(root) and len(set(bf_paths(root))) == len(bf_paths(root)):
+                    yield {'level': level, 'root': root}
+
+
 def chain_programs(level=0, paths=('a', 'd/x', 'd/e/z'), modes=('ok', 'rb')):
     """All 3-node programs (5 forest shapes) over a small label set."""
     yield from programs(3, level, paths=list(paths), bf_modes=list(modes), sb_modes=list(modes), catches=(True,))
@@ -147,6 +167,8 @@ def family(sp):
         return programs(sp['size'], sp['level'], **sp.get('kw', {}))
     if f == 'observer':
         return observer_programs(sp['level'], **sp.get('kw', {}))
+    if f == 'if':
+        return if_programs(sp['level'])
     if f == 'chain3':
         return chain_programs(sp['level'], **sp.get('kw', {}))
     raise ValueError(f)
